@@ -41,8 +41,10 @@ REGISTRY = dict(
 )
 
 HEADER = """From Coq Require Import List QArith ZArith Qminmax Qabs.
-From SB3V Require Import Lib.QUtil Model.LossCommon Model.LossPPO Model.LossA2C Model.LossDQN Model.LossSAC Model.LossTD3.
+From SB3V Require Model.Gae.
+From SB3V Require Import Lib.QUtil Model.LossCommon Model.LossPPO Model.LossA2C Model.LossDQN Model.LossSAC Model.LossTD3 Model.LossRollout.
 Import ListNotations.
+Definition ckt (m i : list Q) : bool := forallb (fun b => b) (qclose_list (1 # 10000) (1 # 100000) m i) && Nat.eqb (length m) (length i).
 Definition REL := (1 # 1000)%Q.
 Definition ABS := (1 # 1000000)%Q.
 Definition ck (m i : Q) : bool := qclose REL ABS m i.
@@ -223,14 +225,39 @@ def install(rec: Recorder):
         patch(opt, "step", step)
 
     if algo in ("ppo", "a2c"):
-        orig_get = model.rollout_buffer.get
+        import numpy as _np
+
+        buf = model.rollout_buffer
+        orig_cra = buf.compute_returns_and_advantage
+
+        def cra(last_values, dones):
+            out = orig_cra(last_values, dones)
+            rec.rollout = {"last_values": last_values.detach().clone().cpu().numpy().reshape(-1).astype("float64").tolist(), "dones": _np.asarray(dones, dtype="float64").reshape(-1).tolist(),
+                           "rewards": buf.rewards.copy(), "values": buf.values.copy(), "starts": buf.episode_starts.copy(),
+                           "advantages": buf.advantages.copy(), "returns": buf.returns.copy(), "T": buf.buffer_size, "n": buf.n_envs}
+            return out
+
+        patch(buf, "compute_returns_and_advantage", cra)
+        orig_perm = _np.random.permutation
+
+        def perm(x):
+            p_ = orig_perm(x)
+            rec.last_perm = _np.array(p_).copy()
+            return p_
+
+        patch(_np.random, "permutation", perm)
+        orig_get = buf.get
 
         def get(batch_size=None):
+            k = 0
             for data in orig_get(batch_size):
                 rec.new_batch(data)
+                bs = len(data.advantages) if batch_size is None else batch_size
+                rec.cur["indices"] = rec.last_perm[k * bs:(k + 1) * bs].tolist() if getattr(rec, "last_perm", None) is not None else None
+                k += 1
                 yield data
 
-        patch(model.rollout_buffer, "get", get)
+        patch(buf, "get", get)
         wrap_fn(model.policy, "evaluate_actions", "eval")
         wrap_opt(model.policy.optimizer, "policy")
     else:
@@ -375,6 +402,7 @@ def analyse_onpolicy(rec, label, opt):
         rec.prob(f"oracle-{algo}-batch-wiring", "evaluate_actions was not called on the minibatch's observations/actions")
     n = len(b.advantages)
     adv = np.array(f64(b.advantages))
+    check_rollout_cells(rec, b)
     norm = cfg["normalize_advantage"] and (n > 1 or algo == "a2c")
     std = float(np.std(adv, ddof=1)) if n > 1 else float("nan")
     A = (adv - adv.mean()) / (std + 1e-8) if norm else adv
@@ -431,6 +459,34 @@ def analyse_onpolicy(rec, label, opt):
     douts = [dlp, dv] + ([dent] if has_ent else [])
     check_param_grads(rec, label, opt, outs, douts, clipped=True)
     rec.count(f"{algo}_steps")
+
+
+def check_rollout_cells(rec, b):
+    """C07 x C05: the minibatch's advantages / returns / old values are those of the rollout cells (t, e) = (i mod T, i div T)
+    of the permutation slice, and return = advantage + value there"""
+    import numpy as np
+
+    ro, idx, algo = getattr(rec, "rollout", None), rec.cur.get("indices"), rec.algo
+    if ro is None or idx is None or len(idx) != len(b.advantages):
+        rec.prob(f"oracle-{algo}-minibatch-not-a-permutation-slice", "could not decode the minibatch as a slice of the recorded permutation of the rollout")
+        return
+    T, n_envs = ro["T"], ro["n"]
+    cells = [(i % T, i // T) for i in idx]
+    a32, r32, v32 = np.array(b.advantages.detach().cpu().numpy()).reshape(-1), np.array(b.returns.detach().cpu().numpy()).reshape(-1), np.array(b.old_values.detach().cpu().numpy()).reshape(-1)
+    for j, (t, e) in enumerate(cells):
+        if not (a32[j] == ro["advantages"][t, e] and r32[j] == ro["returns"][t, e] and v32[j] == ro["values"][t, e]):
+            rec.prob(f"oracle-{algo}-minibatch-cell-wiring", f"sample {j} (flat index {idx[j]} = step {t}, env {e}): advantage/return/old value {a32[j]}, {r32[j]}, {v32[j]} "
+                                                         f"!= rollout buffer cell {ro['advantages'][t, e]}, {ro['returns'][t, e]}, {ro['values'][t, e]}")
+            break
+        if r32[j] != np.float32(ro["advantages"][t, e] + ro["values"][t, e]):
+            rec.prob(f"oracle-{algo}-return-is-not-advantage-plus-value", f"cell (step {t}, env {e}): return {r32[j]} != advantage + value = {ro['advantages'][t, e] + ro['values'][t, e]}")
+            break
+    cols = "[" + "; ".join(f"Gae.mk_col {fql(ro['rewards'][:, e])} {fql(ro['values'][:, e])} {fql(ro['starts'][:, e])} {fq(ro['last_values'][e])} {fq(ro['dones'][e])}" for e in range(n_envs)) + "]"
+    cl = "[" + "; ".join(f"({t}, {e})" for t, e in cells) + "]%nat"
+    m = rec.model
+    rec.expr(f"{algo}-minibatch-columns-are-gae-cells",
+             f"let R := mb_columns_exec {fq(m.gamma)} {fq(m.gae_lambda)} {cols} {cl} in (ckt (fst R) {fql(a32)}, ckt (fst (snd R)) {fql(r32)}, ckt (snd (snd R)) {fql(v32)})")
+    rec.count("rollout_cells_checked")
 
 
 # ---------------------------------------------------------------- DQN
@@ -653,13 +709,13 @@ def gen_configs(rng, tier):
         return rng.choice([1e-3, 3e-3, 7e-4])
 
     base = [
-        dict(algo="ppo", continuous=False, n_steps=16, batch_size=8, n_epochs=2, clip_range=0.2, clip_range_vf=None, normalize_advantage=True, ent_coef=0.01, vf_coef=0.5,
+        dict(algo="ppo", continuous=False, n_steps=8, n_envs=2, batch_size=8, n_epochs=2, clip_range=0.2, clip_range_vf=None, normalize_advantage=True, ent_coef=0.01, vf_coef=0.5,
              max_grad_norm=0.5, gamma=0.99, total=32, share=True),
         dict(algo="ppo", continuous=True, n_steps=12, batch_size=6, n_epochs=3, clip_range=0.05, clip_range_vf=0.05, normalize_advantage=False, ent_coef=0.0, vf_coef=1.0,
              max_grad_norm=0.05, gamma=0.9, total=24, share=False, linear_lr=True, lr0=5e-2),
         dict(algo="ppo", continuous=True, n_steps=10, batch_size=10, n_epochs=2, clip_range=0.1, clip_range_vf=0.2, normalize_advantage=True, ent_coef=0.05, vf_coef=0.3,
              max_grad_norm=10.0, gamma=0.95, total=20, share=True, use_sde=True, squash=True, linear_clip=True, lr0=3e-2),
-        dict(algo="a2c", continuous=False, n_steps=6, normalize_advantage=True, ent_coef=0.02, vf_coef=0.4, max_grad_norm=0.5, gamma=0.99, total=30),
+        dict(algo="a2c", continuous=False, n_steps=5, n_envs=3, normalize_advantage=True, ent_coef=0.02, vf_coef=0.4, max_grad_norm=0.5, gamma=0.99, total=60),
         dict(algo="a2c", continuous=True, n_steps=5, normalize_advantage=False, ent_coef=0.0, vf_coef=0.7, max_grad_norm=0.02, gamma=0.9, total=25, linear_lr=True, use_sde=True, squash=True),
         dict(algo="dqn", continuous=False, batch_size=8, gamma=0.9, max_grad_norm=10.0, total=40, learning_starts=12, train_freq=4, gradient_steps=2),
         dict(algo="dqn", continuous=False, batch_size=6, gamma=0.99, max_grad_norm=0.05, total=36, learning_starts=10, train_freq=2, gradient_steps=1, linear_lr=True, reward_scale=4.0),
@@ -702,6 +758,10 @@ def build_model(cfg):
 
     algo = cfg["algo"]
     env = make_env(cfg["continuous"], cfg["seed"], cfg.get("reward_scale", 1.0))
+    if cfg.get("n_envs", 1) > 1:
+        from stable_baselines3.common.vec_env import DummyVecEnv
+
+        env = DummyVecEnv([(lambda k=k: make_env(cfg["continuous"], cfg["seed"] + k, cfg.get("reward_scale", 1.0))) for k in range(cfg["n_envs"])])
     lr0 = cfg["lr0"]
     lr = (lambda p: lr0 * p) if cfg["linear_lr"] else lr0
     pk = {"net_arch": [8]}
